@@ -141,7 +141,7 @@ def to_case(v):
     # `ignore` defaults and drifts by a column per pass (known findings C05-K2/K3, kept as regress replays); generating it would end
     # every search in one of those
     src, r = layout.render(toks, rng, 'C', dict(p_cmt=rng.choice([0, 0.05, 0.15]), blank=2, nonascii=False, p_multi=0.0, p_tab=0.0,
-                                                multi_cmt=True, unstarred_cmt=False, box_cmt=0.2, cmt_tab=False, p_trail=0.05, indent=rng.choice(['canon', 'random', 'none'])))
+                                                multi_cmt=True, unstarred_cmt=False, box_cmt=0.2, cmt_tab=False, p_trail=0.05, p_join=0.0, indent=rng.choice(['canon', 'random', 'none'])))
     if cseed % 4 == 3:
         crng = random.Random(cseed)
         cfgd = family.apply_exclusions(registry.random_cfg(crng, ('WS', 'MOD'), (0.02, 0.06)[cseed % 2]), _EX)
@@ -187,5 +187,5 @@ def main(ctx):
         for k in range(2 if quick else 6):
             cases.append(family.Case(src, lang, rc[(k + len(cases)) % len(rc)], {'kind': 'corpus-random-config', 'file': rel}))
     raw = family.explore(ctx, judge, cases)
-    raw += family.hyp_explore(ctx, judge, make_strategy, to_case, shards=16, examples=(150 if quick else 3000))
+    raw += family.hyp_explore(ctx, judge, make_strategy, to_case, shards=16, examples=(150 if quick else 1000))
     family.triage(ctx, judge, raw, minimise_src=False, per_cluster=400, max_clusters=400)
